@@ -50,6 +50,8 @@ class CallMixin(ExprMixin):
         if self.spec_mode and text in self.spec.specfuns:
             return self.spec.specfuns[text](self, *[self.eval(a) for a in n.args])
         fn = self.eval(n.func)
+        if fn.ty.kind == 'obj' and fn.py and fn.py[0] in ('closure', 'lambda'):
+            fn = V(PY, py=fn.py)
         if fn.ty.kind != 'py':
             # a callable held in a variable (user code) must be declared as a call site
             raise Unsupported('call of data value %s (declare a callsite for %r)' % (fn.ty, text))
